@@ -2,6 +2,7 @@ package harness
 
 import (
 	"fmt"
+	"time"
 )
 
 func downloadLane(r *RNG, k int, total int, style string) (CliReq, Lane) {
@@ -16,6 +17,12 @@ func downloadLane(r *RNG, k int, total int, style string) (CliReq, Lane) {
 		switch style {
 		case "random":
 			n = 1 + r.Intn(16384)
+		case "small":
+			n = Pick(r, 4096, 4096, 1024, 8000)
+		case "4k":
+			// 128 of these take the client's connection window to the half at which it hands credit back, and 128 is
+			// also what its queue of outgoing control frames holds
+			n = 4096
 		case "padded":
 			pad = Pick(r, -1, 0, 1, 100, 255)
 			n = 16384 - 256
@@ -107,6 +114,30 @@ func GenC14ClientCancel(r *RNG) *CliPlan {
 	// the server does not see the client's RST_STREAMs for a while
 	p.Faults = append(p.Faults, Fault{Kind: "stall-c2s", AfterOps: 2 * nc}, Fault{Kind: "unstall-c2s", AfterOps: 19 * nc})
 	p.MaxSteps = 600000
+	return p
+}
+
+// GenC14ClientStall: the server stops reading for a while in the middle of a download of small frames. Everything the
+// client's read loop has to say (one WINDOW_UPDATE per frame, the connection's among them) queues up behind a write
+// loop that is parked in the transport; seconds pass; the server reads again. No credit may have been lost on the way.
+func GenC14ClientStall(r *RNG) *CliPlan {
+	p := &CliPlan{Family: "c14-client-stall"}
+	genCliCommon(r, p)
+	p.PingInterval, p.DisablePingChecking = 0, true
+	p.Mask = []string{"atomic", "prelock", "net", "yield"}
+	p.Srv = PeerCfg{InitialWindow: 1 << 20, MaxFrameSize: -1, HeaderTableSize: -1, AutoWindow: true, ConnWindowBoost: 1 << 24, LinkCap: Pick(r, 8, 12)}
+	p.Trail = "download/stalled"
+	total := (1 << 20) * (15 + r.Intn(10)) / 10
+	q, l := downloadLane(r, 0, total, Pick(r, "4k", "4k", "small"))
+	p.Reqs = append(p.Reqs, q)
+	p.Lanes = append(p.Lanes, l)
+	p.Faults = append(p.Faults, Fault{Kind: "stall-c2s", AfterReqs: 1, AfterOps: Pick(r, 1, 1, 2+r.Intn(40))}, Fault{Kind: "unstall-c2s", AfterReqs: 1, AfterOps: 1 << 30})
+	// the clock moves readily: at the moment everything waits for the stall to end, it is as likely to jump as the
+	// stall is to end
+	p.Strategy.TimeRace = Pick(r, 0.3, 0.6)
+	p.Strategy.TimeSteps = []time.Duration{1500 * time.Millisecond, 3 * time.Second}
+	p.Frag = false
+	p.MaxSteps = 900000
 	return p
 }
 
